@@ -594,6 +594,59 @@ func miscRules(c *Ctx, a *flAgg) {
 	} else {
 		a.und("RACE-israce", "Snapshot.IsRace", "not found", token.NoPos)
 	}
+	// PARSE-atou: the digit-count bound keeps the accumulated value below 2^(IntSize-1)
+	if f := c.L.Func("stack", "", "atou"); f != nil {
+		exprHome = f.Pkg.Pkg
+		x := &SPE{Fn: f, MaxVisits: 2}
+		x.Explore()
+		intSize := int64(64)
+		if strings.HasSuffix(c.Cfg, "/386") || strings.HasSuffix(c.Cfg, "/arm") {
+			intSize = 32
+		}
+		maxDigits := int64(18)
+		if intSize == 32 {
+			maxDigits = 9
+		}
+		okAll, nOK := true, 0
+		why := ""
+		for _, p := range x.Paths {
+			if p.Term != "return" || len(p.Results) != 2 {
+				continue
+			}
+			if v, isC := p.Results[1].boolConst(); isC && !v {
+				continue
+			}
+			nOK++
+			// the first upper bound on len(s) on the path is the guard in front of
+			// the accumulation loop (later ones are the loop's own control)
+			bound := int64(-1)
+			for _, lt := range p.Lits {
+				at := lt.Atom
+				if at.Op != OpBin || at.Tok != token.LSS {
+					continue
+				}
+				if k, ok := at.Args[1].intConst(); ok && at.Args[0].Op == OpBuiltin && at.Args[0].Name == "len" && lt.Pol {
+					bound = k - 1 // len < K
+					break
+				}
+				if k, ok := at.Args[0].intConst(); ok && at.Args[1].Op == OpBuiltin && at.Args[1].Name == "len" && !lt.Pol && k > 1 {
+					bound = k // !(K < len)
+					break
+				}
+			}
+			if bound < 0 || bound > maxDigits {
+				okAll = false
+				why = fmt.Sprintf("a number of up to %d digits is accepted; more than %d digits can exceed the %d-bit int and wrap to a negative value (ids, line numbers and sleep minutes are then negative; a negative line number indexes the line table)", bound, maxDigits, intSize)
+			}
+		}
+		if nOK > 0 && okAll {
+			a.ok("PARSE-atou", "atou", fmt.Sprintf("atou accepts at most %d digits, so the accumulated value cannot overflow a %d-bit int: results are non-negative", maxDigits, intSize), f.Pos())
+		} else if nOK == 0 {
+			a.und("PARSE-atou", "atou", "no successful path found", f.Pos())
+		} else {
+			a.bad("PARSE-atou", "atou", why, f.Pos())
+		}
+	}
 	// PARSE-funcinit
 	if f := c.L.Func("stack", "Func", "Init"); f != nil {
 		exprHome = f.Pkg.Pkg
